@@ -878,6 +878,16 @@ def units (side, rng, tier):
       yield "maximal length %s" % ("unknown type" if t >= 22 else "garbage body"), \
           struct.pack("!BBHL", 1, t, L, 0x6d617800 | (L & 0xff)) + \
           bytes((i * 7 + t) & 0xff for i in range(L - 8))
+  # ... and the same with a tail that reads like a message of its own (an
+  # echo request, a barrier request): whatever is skipped, it is the whole
+  # declared length - the tail is never taken for the next message
+  for L in (65524, 65531, 65535) if quick else range(65520, 65536):
+    for t in (14, 13, 18):
+      for tail in (struct.pack("!BBHL", 1, 2, 8, 0x7a11), struct.pack("!BBHL", 1, 18, 8, 0x7a12),
+                   struct.pack("!BBHLL", 1, 2, 12, 0x7a13, 0)):
+        yield "maximal length garbage body ending like a message", \
+            struct.pack("!BBHL", 1, t, L, 0x6d617900 | (L & 0xff)) + \
+            bytes((i * 5 + t) & 0xff for i in range(L - 8 - len(tail))) + tail
   for _ in range(n // 4):
     # plausible header, random body
     l = rng.choice([8, 12, 16, 40, 72, 100])
